@@ -8,7 +8,7 @@ import time
 from facts import AnalysisBroken, VERIF
 
 KNOWN = os.path.join(VERIF, 'known_findings.json')
-EVID = os.path.join(VERIF, 'evidence')
+EVID = os.environ.get('NV_EVIDENCE') or os.path.join(VERIF, 'evidence')
 
 
 class Ctx:
